@@ -16,18 +16,57 @@ META = dict(
          "SigHashCache, reused ScriptExecutionData, both transaction classes) must agree with each other and be equal/unequal as the "
          "specification says; then the base digest is signed with a real key and VerifyScript is run on P2PK, three-signature bare script, "
          "P2WPKH, P2WSH, three-signature P2WSH, P2TR key path and a tapscript leaf, in the base and the mutated context, with the signature "
-         "untouched, bit-flipped, high-S (with and without LOW_S) or made by another key: accept <=> specification.",
+         "untouched, bit-flipped, high-S (with and without LOW_S) or made by another key: accept <=> specification. "
+         "The midstate cache is additionally modelled as a stateful object (SigCache.tla: six slots keyed by hash type class, each holding a "
+         "scriptCode and the preimage up to the hash type); TLC proves on every transition of the bounded graph that the digest through the "
+         "cache equals the stateless digest and that a signature for scriptCode A is accepted while B executes iff A = B (or nothing is "
+         "committed), and every transition - sequences of 2-3 (thorough 4) checks with equal, equal-length-but-different and different-length "
+         "scriptCodes - is replayed through one real SigHashCache and one real checker object per behaviour.",
     note="The mathematics of ECDSA / BIP340 verification (secp256k1) is trusted: only which message is signed and whether an untouched / "
          "altered signature or key is accepted is checked. Hash functions are assumed collision free (the model's digest is the tuple of "
          "hashed fields; only equality of real digests is compared, not their byte layout). FindAndDelete and the OP_CODESEPARATOR position "
          "of legacy/v0 scripts are abstracted as part of scriptCode. Domain: 1-2 (thorough: 1-3) inputs, 1-3 outputs, one changed field at a time; "
          "the three-signature script always uses the hash types (ht, ht xor 0x80, ALL-or-SINGLE).",
     technique="TLA+ digest constructors = declarative commitment table (TLC, exhaustive on the domain); oracle table replayed on SignatureHash*, "
-              "real signatures through VerifyScript",
+              "real signatures through VerifyScript; stateful SigHashCache model with graph replay through one real cache / checker",
 )
 
 KINDS = ("none", "version", "locktime", "prevout", "sequence", "scriptsig", "witness", "amount", "spk", "outvalue", "outscript", "code",
          "leaf", "codesep", "annex", "ht", "addin", "addout", "swap")
+
+
+def run_cache(ctx, binary):
+    """The SigHashCache / the per-input checker as a stateful object (specs/Sighash/SigCache.tla, engine E1): every transition of the
+    bounded state graph (sequences of signature checks through one cache with equal, equal-length-but-different and different-length
+    scriptCodes) is replayed on one real SigHashCache and one real checker; the property clauses are TLC action properties."""
+    cfg = "E1_cache_quick.cfg" if ctx.tier == "quick" else "E1_cache_thorough.cfg"
+    r = ctx.tlc("Sighash", "SigCache", cfg)
+    g = vflib.Graph(vflib.load_emitted(r.emit_path))
+    tests = []
+    kinds = collections.Counter()
+    slot = lambda ht: 3 * ((ht >> 7) & 1) + 2 * ((ht & 31) == 3) + ((ht & 31) == 2)
+    length = lambda code: 36 if code == 3 else 35
+    for t in g.edge_tests():
+        for st in t["steps"]:
+            st["exp"] = None                      # the cache content is not observable; results are compared at every step
+        acts = [st["a"] for st in t["steps"]]
+        for prev, cur in zip(acts, acts[1:]):
+            if slot(prev[3]) == slot(cur[3]):
+                k = "same_code" if prev[2] == cur[2] else "same_length_other_code" if length(prev[2]) == length(cur[2]) else "other_length"
+                kinds["consecutive_same_slot/" + k] += 1
+        kinds["accepting" if t["steps"][-1]["r"]["ok"] else "rejecting"] += 1
+        if len(acts) >= 2:
+            ctx.nontrivial.add(vflib.digest([t["init"]["sv"], t["init"]["ctx"]["i"], acts]))
+        tests.append(t)
+    for k in ("consecutive_same_slot/same_code", "consecutive_same_slot/same_length_other_code", "consecutive_same_slot/other_length", "accepting", "rejecting"):
+        if not kinds[k]:
+            raise vflib.InfraError("vacuity: no cache behaviour of class " + k)
+    ctx.log("E1 SigCache: %d states, %d transitions -> %d implementation tests" % (len(g.nodes), g.nedges, len(tests)))
+    res = ctx.run_harness(binary, "cache", tests, name="cache")
+    ctx.traces += int(res["summary"]["tests"])
+    ctx.evaluations += 3 * int(res["summary"].get("cache_requests", 0))
+    ctx.extra["cache_behaviours"] = dict(kinds, tests=len(tests), requests=int(res["summary"].get("cache_requests", 0)))
+    vflib.report_mismatches(ctx, binary, "cache", res, adapter="sighash", what_prefix="SigCache: ")
 
 
 def run(ctx):
@@ -69,6 +108,7 @@ def run(ctx):
                         mut=x["mut"], changed=x["changed"], valid=x["valid"]))
     vflib.report_mismatches(ctx, binary, "table", res, adapter="sighash", what_prefix="Sighash: ",
                             key_fn=lambda m, case: "row:" + vflib.digest(m.get("why")))
+    run_cache(ctx, binary)
     ctx.assumptions += ["ECDSA / BIP340 verification itself (secp256k1) is correct", "SHA256 is collision free",
                         "several simultaneous field changes behave like the union of the single changes"]
     return ctx.finish(level="model_checking", exhaustive=True,
